@@ -118,12 +118,16 @@ func toEventReference(data any) []eventReference {
 				)
 				continue
 			}
+			// [event ID, hashes]; like any other unusable entry (the references of a
+			// make_join template come from the remote server) a malformed one is skipped
 			ev, ok := b.([]interface{})
-			if ok {
-				evRefs = append(evRefs, eventReference{
-					EventID:     ev[0].(string),
-					EventSHA256: eventHashFromEventID(ev[0].(string))},
-				)
+			if ok && len(ev) > 0 {
+				if evID, ok := ev[0].(string); ok {
+					evRefs = append(evRefs, eventReference{
+						EventID:     evID,
+						EventSHA256: eventHashFromEventID(evID)},
+					)
+				}
 				continue
 			}
 		}
@@ -243,6 +247,9 @@ func eventHashFromEventID(eventID string) spec.Base64Bytes {
 	// now, we can just knock the sigil $ off the front and use that
 	// as the event SHA256.
 	var sha spec.Base64Bytes
+	if eventID == "" {
+		return sha
+	}
 	if err := sha.Decode(eventID[1:]); err != nil {
 		return sha
 	}
